@@ -14,7 +14,7 @@ RULE = ("tame and app sessions with modal pushes from input, refresh, show_all, 
 def generate(rnd, tier):
     n = 600 if tier == "quick" else 7000
     sid = SidCounter()
-    cases = [gen_case(rnd, "tame", sid) for _ in range(n)] + [gen_case(rnd, "app", sid) for _ in range(n // 2)] + [gen_parent_redraw(rnd) for _ in range(n // 3)]
+    cases = [gen_case(rnd, "tame", sid) for _ in range(n)] + [gen_case(rnd, "app", sid) for _ in range(n // 2)] + [gen_parent_redraw(rnd) for _ in range(n // 3)] + [gen_notice_stays(rnd) for _ in range(n // 10)]
     return [with_cc(c) for c in cases]
 
 
@@ -36,6 +36,9 @@ def gen_parent_redraw(rnd):
         scripts = {"input": [{"acts": acts + nxt, "ret": rnd.choice(["CLOSE", "CLOSE", "q", "DISCARDED"])} for _ in range(4)]}
         r = rnd.random()
         if r < 0.25: scripts["show"] = [{"acts": [["close_sig", d], ["proc", None]]}]          # a progress-like modal: closes itself, then pumps the loop
+        elif r < 0.35:
+            # the modal screen closes itself from input() and, in the same callback, emits a signal / asks for a redraw of what is beneath
+            scripts["input"] = [{"acts": [["close_direct"], usig()] + ([["sched_redraw"]] if rnd.random() < 0.5 else []), "ret": "PROCESSED"} for _ in range(4)]
         elif r < 0.45 and d == depth: scripts["closed"] = [{"acts": [["push_modal", depth + 1, None]]}]   # a "save changes?" dialog shown from closed()
         screens.append(dict(id=d, name="S%d" % d, title=None, text="modal %d" % d, height=30, input_required=True, no_separator=False, skip_check=False, scripts=scripts))
     screens.append(dict(id=depth + 1, name="S%d" % (depth + 1), title=None, text="dialog", height=30, input_required=True, no_separator=False, skip_check=False,
@@ -43,6 +46,19 @@ def gen_parent_redraw(rnd):
     return with_cc(dict(op="machine", mode="tame", width=80, screens=screens, handlers=handlers, init=[["schedule", 0, None]],
                         stdin=[rnd.choice(["x", "c", "q", ""]) for _ in range(rnd.randint(2, 10))], quit_cb=None,
                         quit_screen=None, exc_handler=True, run_empty=False, deliver_at=[]))
+
+
+def gen_notice_stays(rnd):
+    """the screen beneath is waiting at its prompt when a background signal's handler shows a modal screen that takes no input and stays (a progress notice); the user
+    answers the old prompt while the notice is up: the line waits for the screen beneath until the notice is gone; a second signal's handler closes the notice"""
+    screens = [dict(id=0, name="S0", title=None, text="hub", height=30, input_required=True, no_separator=False, skip_check=False,
+                    scripts={"input": [{"ret": rnd.choice(["PROCESSED", "REDRAW", "DISCARDED"])} for _ in range(5)]}),
+               dict(id=1, name="S1", title=None, text="working...", height=30, input_required=False, no_separator=False, skip_check=False, scripts={})]
+    handlers = [dict(cls="U0", hid=0, data=None, scripts=[[["push_modal", 1, rnd.choice([None, 1])]], []]),
+                dict(cls="U1", hid=1, data=None, scripts=[[["close_sig", 1]], []])]
+    init = [["schedule", 0, None], ["enq", "U0", 0, None, 901]]
+    return with_cc(dict(op="machine", mode="tame", width=80, screens=screens, handlers=handlers, init=init, stdin=[rnd.choice(["x", "1", ""]) for _ in range(rnd.randint(1, 3))],
+                        quit_cb=None, quit_screen=None, exc_handler=True, run_empty=False, deliver_at=sorted(rnd.sample(range(6, 14), rnd.randint(0, 2)))))
 
 
 def corpus():
@@ -116,6 +132,14 @@ def monitor(case, obs):
                 # the same screen object can be both beneath and the modal one (pushed over itself): its callbacks right after its modal entry was popped
                 # (a screen that closes itself while being drawn is still asked for its prompt) are not callbacks of the screen beneath
                 if len(st) == n and any(c_["scr"] == ev[1] for c_ in calls): continue
+                held = True
+                if ev[2] == "input":
+                    # the line belongs to the loop level the screen asked in: it is "given to a screen beneath" only if that level is still open and covered
+                    asked = next((c_ for e_, c_ in reversed(x.x[:i]) if e_[0] == "cb" and e_[1] == ev[1] and e_[2] == "prompt" and "lvl" in c_), None)
+                    held = asked is not None and asked["lvl"] in (ctx.get("levels") or []) and asked["lvl"] != ctx.get("lvl")
+                if len(st) > n and held and ev[2] in ("refresh", "show", "prompt", "input") and name not in [e_[0] for e_ in st[n:]] and name in [e_[0] for e_ in st[:n]]:
+                    # the modal screen (or what was pushed over it) is still up and the callback belongs to a screen that is only beneath it
+                    return "%s() of %s ran inside push_screen_modal while the stack was %r: %s is beneath the modal screen (%d entries at the call)" % (ev[2], name, st, name, n)
                 if len(st) <= n: return "%s() of %s ran inside push_screen_modal while the stack was %r (%d entries at the call): a screen beneath the modal one" % (ev[2], name, st, n)
     return None
 
